@@ -54,7 +54,7 @@ func init() { Register(c08{}) }
 func (c08) ID() string       { return "C08" }
 func (c08) New() interface{} { return &C08Case{} }
 func (c08) Rule() string {
-	return "each run: generated nucleotide alignment (2-17 rows x 1-60 columns, IUPAC codes, gaps, identical and saturated pairs), one of 7 models with options, 1-32 workers, a scheduling policy and a seeded choice at every synchronisation operation of the real DistMatrix goroutines; half of the runs inject a failing k-th Distance/Sequence call through the public DistModel interface; fault-free runs also compute a transformed presentation (column/row permutation, replication, integer weights, unit weights, reverse complement) under a different schedule. Distinct = distinct hash of the released (goroutine, site) sequence; non-trivial = at least 2 workers and at least 3 pairs."
+	return "each run: generated nucleotide alignment (2-17 rows x 1-60 columns, IUPAC codes, gaps, identical and saturated pairs), one of 7 models with options, 1-32 workers, a scheduling policy and a seeded choice at every synchronisation operation of the real DistMatrix goroutines; half of the runs inject a failing k-th Distance/Sequence call through the public DistModel interface; fault-free runs also compute a transformed presentation (column/row permutation, replication, integer weights, unit weights, reverse complement) under a different schedule, in 4 cases of 10 with the model object that already served for the run under test; 6 % of the alignments carry a residue outside the distance code (a refusal must not depend on workers, schedule or presentation); in half of the runs the run under test precedes the 1-worker reference; each tier ends with cold runs, one process per run. Distinct = distinct hash of the released (goroutine, site) sequence; non-trivial = at least 2 workers and at least 3 pairs."
 }
 
 var dnaModels = []string{"jc", "k2p", "pdist", "rawdist", "f81", "f84", "tn93"}
